@@ -216,6 +216,12 @@ def run(chk, tier):
                 chk.ob('R20.2', 'helper %s::%s forwards to Unimock\'s own %s with the same arguments' % (tname, it['name'], it['name']), ok, config=cfg, fn=fn, site='forward', what='helper %s::%s forwards %s' % (tname, it['name'], order),
                        found={'calls': [e.data[1] for e in p.calls()], 'order': order})
     supertrait_forwarders(chk, F, 'R20.2.super', cfg)
+    # R20.6 'act like hand-written impls' includes being dropped like one: clones of the mock that answers parked in the instance's own
+    # lent values (e.g. `Error::source` handing out `u.make_ref(u.clone())`) and the delegation helper are released before the
+    # live-handle count is taken, so a mock used that way does not refuse to verify (shared with C09/C13/C18)
+    from props import lifecycle as L_
+    fn_, paths_, rows_ = L_.teardown_table(chk, F, 'R20.6.table', cfg)
+    L_.teardown_pre_effects(chk, F, 'R20.6', cfg, fn_, paths_)
     # R20.3.helper the step every unmocked provided method takes to reach the upstream default body: the helper for each receiver kind
     # (shared with C15: cached per instance, built from a clone of this mock, a filled cache is used and never a reason to panic)
     from props import c15
